@@ -33,6 +33,50 @@ def run(chk):
     chk.guard(decode_then_encode, chk, it, decode, encode, nbuf)
     chk.guard(encode_then_decode, chk, it, decode, encode)
     tv(chk)
+    if chk.tier != 'quick':
+        chk.guard(kani_crosscheck, chk)
+
+
+def kani_crosscheck(chk):
+    """second engine on the same sources: Kani 0.68 / CBMC (cadical) decides decode -> encode on EVERY byte string of at most 3
+    bytes (harness /verif/kani, path dependency on /repo/lib/melvm; unwind 34 with unwinding assertions on; ~6 min, ~8 GB).  Only a
+    SUCCESSFUL verdict with no failed check counts; a failure, a timeout or an out-of-memory run makes this kernel inconclusive
+    (the mirsym obligations above carry the native replay)"""
+    import os
+    import shutil
+    import subprocess
+    import time
+    kdir = os.path.join(harness.VERIF, 'kani')
+    from mirsym import loader
+    try:
+        shutil.copy(os.path.join(loader.REPO, 'Cargo.lock'), os.path.join(kdir, 'Cargo.lock'))
+    except OSError:
+        pass
+    if loader.REPO != '/repo':
+        raise Inconclusive('the Kani harness crate depends on /repo by path; scratch evaluation skips it')
+    env = dict(os.environ, CARGO_NET_OFFLINE='true')
+    env.pop('RUSTFLAGS', None)
+    t0 = time.time()
+    cmd = 'ulimit -v 30000000; exec cargo kani --target-dir %s --harness decode_then_encode_all_strings_up_to_3_bytes' % \
+        os.path.join(harness.BUILD, 'kani')
+    try:
+        r = subprocess.run(['bash', '-c', cmd], cwd=kdir, env=env, capture_output=True, text=True, timeout=3000)
+    except subprocess.TimeoutExpired:
+        raise Inconclusive('Kani did not finish within 50 minutes')
+    dt = time.time() - t0
+    out = r.stdout + r.stderr
+    ok = 'VERIFICATION:- SUCCESSFUL' in out and '1 successfully verified harnesses, 0 failures' in out
+    m = re.search(r'\*\* (\d+) of (\d+) failed', out)
+    chk.extra['kani'] = {'harness': 'decode_then_encode_all_strings_up_to_3_bytes', 'verdict': 'SUCCESSFUL' if ok else 'not successful',
+                         'checks': m.group(0) if m else None, 'wall_s': round(dt, 1), 'unwind': 34, 'solver': 'CBMC 6.11 / cadical',
+                         'bound': 'all byte strings of length <= 3'}
+    rec = {'id': 'KANI/decode-then-encode/all-byte-strings-up-to-3-bytes', 'kind': 'FUNC', 'bound': 'every byte string of <= 3 bytes; unwind 34, unwinding assertions on',
+           'verdict': 'holds' if ok else 'unknown: kani did not verify', 'solver_s': round(dt, 1)}
+    chk.obligations.append(rec)
+    chk.solver_s += dt
+    if not ok:
+        tail = '\n'.join([l for l in out.split('\n') if 'FAILED' in l or 'Failed Checks' in l or 'error' in l.lower()][:8])
+        raise Inconclusive('Kani cross-check not successful: %s' % tail[-600:])
 
 
 def opcode_eq(a, b):
